@@ -54,14 +54,22 @@ def some_float(r, long_p=0.04):
     return f64(r.choice([1, -1]) * r.random() * 10 ** r.randint(-5, 5))
 
 
+def long_text(r):
+    """>= 1 KiB after escaping: longer than any buffer an encoder is likely to use for one token"""
+    unit = r.choice(["a", "ab", "x\\", "é", "q\"", "line\n", "0123456789"])
+    return (unit * (r.randint(1024, 1400) // len(unit) + 1)) + r.choice(["", "z", "\n"])
+
+
 def label_value(r):
     k = r.random()
+    if k < 0.015: return long_text(r)
     if k < 0.75: return r.choice(LABEL_VALUES)
     return "".join(r.choice(["a", "b", "é", "😀", "", "1", "\\", "\"", "\n", "n", "\r", " ", "\t"]) for _ in range(r.randint(0, 5)))
 
 
 def help_text(r):
     k = r.random()
+    if k < 0.02: return long_text(r)
     if k < 0.12: return ""
     if k < 0.8: return r.choice(HELPS)
     return "".join(r.choice(["a", " ", "é", "\\", "\"", "\n", "n", "\t", "#"]) for _ in range(r.randint(1, 6)))
